@@ -351,9 +351,6 @@ def run(repo: Repo, rep: Report, tier: str) -> None:
     from .c11 import union_write_fold_rule
 
     union_write_fold_rule(repo, rep, "C01.R18")
+    from .c07 import array_count_fold_rule
 
-
-
-
-
-
+    array_count_fold_rule(repo, rep, "C01.R20")
